@@ -300,7 +300,14 @@ fn gen_end(rng: &mut Rng, class: u64) -> f64 {
         4 => *rng.pick(&[0.0, -0.0]),
         5 => *rng.pick(&[5e-324, -5e-324, f64::MIN_POSITIVE.next_down(), 1e-310]),
         6 => *rng.pick(&[f64::INFINITY, f64::NEG_INFINITY]),
-        _ => f64::from_bits(*rng.pick(&[0x7ff8_0000_0000_0000u64, 0xfff8_0000_0000_0000, 0x7ff0_0000_0000_0001, 0x7fff_ffff_ffff_ffff])),
+        _ => {
+            if rng.chance(1, 2) {
+                f64::from_bits(*rng.pick(&[0x7ff8_0000_0000_0000u64, 0xfff8_0000_0000_0000, 0x7ff0_0000_0000_0001, 0x7fff_ffff_ffff_ffff]))
+            } else {
+                // NaN with a random sign and payload
+                f64::from_bits(0x7ff0_0000_0000_0000 | (rng.next_u64() & 0x800f_ffff_ffff_ffff) | 1)
+            }
+        }
     }
 }
 
@@ -337,7 +344,18 @@ fn gen_scn(rng: &mut Rng, _tier: Tier) -> ByteScn {
         6..=10 => 2,
         11..=14 => 3,
         15..=17 => 4,
-        _ => rng.usize_in(5, 12),
+        18 => rng.usize_in(5, 12),
+        _ => match rng.below(10) {
+            0..=5 => rng.usize_in(5, 12),
+            6..=8 => rng.usize_in(13, 40),
+            _ => {
+                if rng.chance(1, 6) {
+                    *rng.pick(&[64usize, 100, 255, 256, 300])
+                } else {
+                    rng.usize_in(13, 40)
+                }
+            }
+        },
     };
     // scenario: all admissible (60%), or one/several inadmissible ends mixed in
     let bad_rate = *rng.pick(&[0u64, 0, 0, 1, 3]);
@@ -354,13 +372,24 @@ fn gen_scn(rng: &mut Rng, _tier: Tier) -> ByteScn {
         })
         .collect();
     match shape {
-        0 => ends.sort_by(|a, b| b.partial_cmp(a).unwrap_or(std::cmp::Ordering::Equal)), // descending
+        0 => ends.sort_by(|a, b| b.total_cmp(a)), // descending (total order: NaNs may be among them)
         1 => {
             // duplicates
             if n >= 2 {
                 let v = ends[0];
                 let k = rng.usize_in(1, n - 1);
                 ends[k] = v;
+            }
+        }
+        2 => {
+            // equal magnitudes of both signs (comparators written on |x| or on bit patterns)
+            if n >= 2 {
+                let k = rng.usize_in(1, n - 1);
+                ends[k] = -ends[0];
+                if n >= 3 && rng.chance(1, 2) {
+                    let j = rng.usize_in(1, n - 1);
+                    ends[j] = ends[0];
+                }
             }
         }
         _ => {}
